@@ -71,3 +71,44 @@ func VerifC02_Pred_TokenAcrossPartitionChange() {
 	verif.Assert("pred-release-after-remove-returns-to-charged-bin", v.a.BusyCount() == v.ba && v.b.BusyCount() == v.bb && v.s.BusyCount() == v.total)
 	verif.Reach("end")
 }
+
+// VerifC02_Strategies_ConcurrentConservation (event-order): the simple and the precise strategy used
+// directly by two concurrent TryAcquire calls and a concurrent SetLimit (one token held since setup,
+// limits 1..2, new limit 1..2): at quiescence the in-flight count equals the tokens that were
+// reported granted (plus the one held) - whatever the interleaving, a call that reports failure has
+// left no unit behind, and after releasing everything the count is zero.
+//
+//verif:harness property=C02 theory=bv tier=quick maxpaths=20000 clock=frozen
+func VerifC02_Strategies_ConcurrentConservation() {
+	kind := verif.Choice("strategy", 2)
+	L := 1 + verif.Choice("limit", 2)
+	L2 := 1 + verif.Choice("newLimit", 2)
+	var st core.Strategy
+	busy := func() int { return 0 }
+	if kind == 0 {
+		s := NewSimpleStrategy(L)
+		st, busy = s, s.GetBusyCount
+	} else {
+		s := NewPreciseStrategy(L)
+		st, busy = s, s.GetBusyCount
+	}
+	held, ok0 := st.TryAcquire(verifKeyCtx("a"))
+	verif.Assert("setup-token", ok0)
+	var ok1, ok2 bool
+	var t1, t2 core.StrategyToken
+	verif.Spawn("a1", func() { t1, ok1 = st.TryAcquire(verifKeyCtx("a")) })
+	verif.Spawn("a2", func() { t2, ok2 = st.TryAcquire(verifKeyCtx("a")) })
+	verif.Spawn("set", func() { st.SetLimit(L2) })
+	verif.Parallel()
+	verif.Assert("conc-token-acquired-iff-ok", verif.And(t1.IsAcquired() == ok1, t2.IsAcquired() == ok2))
+	verif.Assert("conc-busy-is-tokens-granted", busy() == 1+verif.B2I(ok1)+verif.B2I(ok2))
+	held.Release()
+	if ok1 {
+		t1.Release()
+	}
+	if ok2 {
+		t2.Release()
+	}
+	verif.Assert("conc-all-released-is-zero", busy() == 0)
+	verif.Reach("end")
+}
